@@ -1132,6 +1132,15 @@ class Exec:
             for k in n.keywords:
                 self.eval_for_effect(k.value)
             return NONE
+        dn = DROPPED.dotted(n.func)
+        if dn in DROPPED.EXTERNAL_PURE:
+            fname, rk = DROPPED.EXTERNAL_PURE[dn]
+            vals = [self.eval(a) for a in n.args]
+            return self.pure_external(fname, rk, vals)
+        if dn in DROPPED.EXTERNAL_EFFECT and not self.spec_mode:
+            for a in n.args:
+                self.eval_for_effect(a)
+            return NONE
         if not self.spec_mode and DROPPED.is_external_opaque(n):
             for a in n.args:
                 self.eval_for_effect(a)
@@ -1168,6 +1177,24 @@ class Exec:
             raise OutsideSubset("*args")
         kw = {k.arg: self.eval(k.value) for k in n.keywords}
         return self.apply(f, args, kw, n)
+
+    def pure_external(self, fname, rk, vals):
+        strs = []
+        for v in vals:
+            if not (isinstance(v, SV) and v.kind in ("str", "val")):
+                raise OutsideSubset(f"{fname} on a non-string")
+            strs.append(ops.as_str(v))
+        if fname == "path_join":
+            # os.path.join(a, b, c) == join(join(a, b), c)
+            f = z3.Function("path_join", z3.StringSort(), z3.StringSort(), z3.StringSort())
+            cur = strs[0]
+            for nxt in strs[1:]:
+                cur = f(cur, nxt)
+            return S(cur)
+        rs = z3.BoolSort() if rk == "bool" else z3.StringSort()
+        f = z3.Function(fname, *([z3.StringSort()] * len(strs) + [rs]))
+        t = f(*strs)
+        return SV("bool", t) if rk == "bool" else S(t)
 
     def eval_for_effect(self, node):
         saved = (self.spec_mode, self.effect_mode)
@@ -1695,6 +1722,9 @@ class Exec:
             if nm == "is_fresh":
                 v = self.eval(n.args[0])
                 return B(z3.BoolVal(isinstance(v, Ref) and v.oid not in self.old_state["heap"]))
+            if nm in ("fs_exists", "fs_isfile", "fs_isdir", "path_join", "path_basename", "path_dirname"):
+                vals = [self.eval(a) for a in n.args]
+                return self.pure_external(nm, "bool" if nm.startswith("fs_") else "str", vals)
             if nm == "iota":
                 k = ops.as_int(self.eval(n.args[0]))
                 return self.alloc(HList("int", ops.iota(k)))
